@@ -7,6 +7,8 @@ pub mod c06;
 pub mod c07;
 pub mod c09;
 pub mod c11;
+pub mod c12;
+pub mod c13;
 pub mod c15;
 pub mod common;
 
@@ -18,6 +20,8 @@ pub fn run(id: &str, tier: Tier) -> i32 {
         "C07" => c07::run(tier),
         "C09" => c09::run(tier),
         "C11" => c11::run(tier),
+        "C12" => c12::run(tier),
+        "C13" => c13::run(tier),
         "C15" => c15::run(tier),
         _ => machinery(&format!("no check for property {id}")),
     }
@@ -36,6 +40,8 @@ pub fn replay(id: &str, path: &str) -> i32 {
             "C07" => c07::replay(case),
             "C09" => c09::replay(case),
             "C11" => c11::replay(case),
+            "C12" => c12::replay(case),
+            "C13" => c13::replay(case),
             "C15" => c15::replay(case),
             _ => machinery(&format!("no replay for property {id}")),
         }
